@@ -2,7 +2,7 @@
     the refinement of the finite-map specification over whole histories (dir_refines_map), and the
     independence of the persistent image from the cache mode (cache_mode_irrelevant). *)
 From Coq Require Import ZArith List Bool Lia Permutation.
-Require Import H4.gen.Gen_DD H4.DDBvModel H4.DDBvProofs H4.DDSpec H4.DDModel H4.DDProofs H4.DDTagFacts.
+Require Import H4.gen.Gen_DD H4.DDBvModel H4.DDBvProofs H4.DDSpec H4.DDModel H4.DDProofs H4.DDTagFacts H4.DDEofModel.
 Import ListNotations.
 Local Open Scope Z_scope.
 
@@ -1722,4 +1722,51 @@ Proof.
       with (filter (fun o => negb (is_cache_op o)) (OOpen n :: h)) in H2.
     eapply run_states_s_indep; eauto. }
   subst s2. unfold abs. rewrite S1, S2. eapply Permutation_trans; [exact P1|apply Permutation_sym; exact P2].
+Qed.
+
+(* ------------------------------------------------------------------------------------------ *)
+(** * HTPstart's end of file *)
+
+Lemma eof_dd_spec : forall e d, e <= eof_dd e d /\ fst d + snd d <= eof_dd e d.
+Proof.
+  intros e d. unfold eof_dd, HTPstart_dd_end_test, HTPstart_dd_end_set.
+  destruct (Z.gtb_spec (fst d + snd d) e); lia.
+Qed.
+
+Lemma fold_eof_dd : forall l e, e <= fold_left eof_dd l e /\ forall d, In d l -> fst d + snd d <= fold_left eof_dd l e.
+Proof.
+  induction l as [|x l IH]; intros e; cbn [fold_left].
+  - split; [lia|]. intros d [].
+  - destruct (IH (eof_dd e x)) as [H1 H2]. destruct (eof_dd_spec e x) as [H3 H4]. split; [lia|].
+    intros d [<-|Hd]; [lia|auto].
+Qed.
+
+Lemma eof_block_spec : forall e b,
+  e <= eof_block e b /\ block_end b <= eof_block e b /\ forall d, In d (lb_dds b) -> fst d + snd d <= eof_block e b.
+Proof.
+  intros e b. unfold eof_block.
+  set (e1 := if HTPstart_blk_end_test (lb_off b) (lb_ndds b) >? e then HTPstart_blk_end_set (lb_off b) (lb_ndds b) else e).
+  assert (He1 : e <= e1 /\ block_end b <= e1).
+  { unfold e1, HTPstart_blk_end_test, HTPstart_blk_end_set, block_end, NDDS_SZ, OFFSET_SZ, DD_SZ.
+    destruct (Z.gtb_spec (lb_off b + (2 + 4) + lb_ndds b * 12) e); lia. }
+  destruct (fold_eof_dd (lb_dds b) e1) as [H1 H2]. repeat split; try lia. exact H2.
+Qed.
+
+Lemma fold_eof_block : forall bl e,
+  e <= fold_left eof_block bl e /\
+  forall b, In b bl -> block_end b <= fold_left eof_block bl e /\
+                        forall d, In d (lb_dds b) -> fst d + snd d <= fold_left eof_block bl e.
+Proof.
+  induction bl as [|x bl IH]; intros e; cbn [fold_left].
+  - split; [lia|]. intros b [].
+  - destruct (IH (eof_block e x)) as [H1 H2]. destruct (eof_block_spec e x) as (H3 & H4 & H5). split; [lia|].
+    intros b [<-|Hb]; [|auto]. split; [lia|]. intros d Hd. specialize (H5 d Hd). lia.
+Qed.
+
+(** the end of file HTPstart recovers lies at or beyond the end of every DD block and of every element *)
+Lemma htpstart_eof_covers_lemma : forall bl, eof_covers (htpstart_end_off bl) bl = true.
+Proof.
+  intros bl. unfold eof_covers, htpstart_end_off. apply forallb_forall. intros b Hb.
+  destruct (fold_eof_block bl 0) as [_ H]. destruct (H b Hb) as [H1 H2].
+  apply andb_true_iff. split; [apply Z.leb_le; exact H1|]. apply forallb_forall. intros d Hd. apply Z.leb_le. auto.
 Qed.
